@@ -64,24 +64,32 @@ Section Top.
   Lemma Rel_nil sg : Rel [] [] [] sg.
   Proof. split; [intros x t H; discriminate|intros x H; discriminate]. Qed.
 
-  Lemma passes_sim fuel body D gf D2 :
-    no_top_tuple body = true ->
+  Lemma NT_nil : NT [] [].
+  Proof. intros x [H|H]; discriminate. Qed.
+
+  Lemma passes_sim fuel body D gf D2 k :
+    NT D [] ->
+    no_top_tuple D body = true ->
     g_block gf true D [] body = Some D2 ->
     incl (anns_in body) (prog_anns p) -> incl (augs_in body) (prog_augs p) ->
     forall n rho sg tr, Rel D [] rho sg ->
     ppasses sem augsem fuel n rho body = Some tr ->
-    exists F, forall F', (F <= F')%nat -> cpasses sem augsem info F' n sg (fst (trm true true D body)) = Some tr.
+    exists F, forall F', (F <= F')%nat -> cpasses sem augsem info F' n sg (fst (trm true k true true D body)) = Some tr.
   Proof.
-    intros HNT HG Han Hau. induction n as [|n IH]; intros rho sg tr HR HP.
+    intros HNTD HNT HG Han Hau. induction n as [|n IH]; intros rho sg tr HR HP.
     - inversion HP; subst. exists 0%nat. intros; reflexivity.
     - cbn [ppasses] in HP. destruct (pexec fuel rho body) as [[[rho1 e1] o1]|] eqn:E; [|discriminate].
-      destruct o1; [|discriminate].
-      destruct (ppasses sem augsem fuel n rho1 body) as [e2|] eqn:E2; [|discriminate]. inversion HP; subst tr.
-      destruct (sim_all sem augsem info p Hfacts Hinfo fuel body true true gf D [] D2 rho sg rho1 e1 ONormal HNT HG Han Hau HR)
+      assert (Ho : o1 = ONormal \/ o1 = OContinue) by (destruct o1; auto; discriminate).
+      assert (HP' : match ppasses sem augsem fuel n rho1 body with Some e2 => Some (e1 ++ e2) | None => None end = Some tr)
+        by (destruct Ho as [-> | ->]; exact HP).
+      clear HP.
+      destruct (ppasses sem augsem fuel n rho1 body) as [e2|] eqn:E2; [|discriminate]. inversion HP'; subst tr.
+      destruct (sim_all sem augsem info p Hfacts Hinfo fuel body true k true true gf D [] D2 rho sg rho1 e1 o1 HNT HG Han Hau HNTD HR)
         as (loc & sg1 & F1 & C1 & Fr1 & R1 & _ & _); [intros g []|exact E|].
       destruct (IH rho1 sg1 e2 R1 E2) as (F2 & C2).
       exists (Nat.max F1 F2). intros F' HF'. cbn [cpasses]. rewrite C1 by lia.
-      rewrite (lastn_app_r (length sg) loc sg1) by (eapply Fr_length; eauto). rewrite C2 by lia. reflexivity.
+      destruct Ho as [-> | ->]; cbn [oc];
+        rewrite (lastn_app_r (length sg) loc sg1) by (eapply Fr_length; eauto); rewrite C2 by lia; reflexivity.
   Qed.
 
   Theorem stmt_preserve c :
@@ -96,29 +104,32 @@ Section Top.
     unfold transl in HT.
     destruct (tr_block false (bsize (p_pre p)) true 0 st0 (p_pre p)) as [[setup s1]|] eqn:T1; [|discriminate].
     assert (HD0 : Dec [] [] st0) by (intro x; reflexivity).
-    destruct (tr_block_simple false _ _ true true false _ _ _ _ _ _ _ _ eq_refl eq_refl G1 HD0 T1) as (S1 & S2 & S3).
+    destruct (tr_block_simple false _ _ true true false _ _ _ _ _ _ _ _ eq_refl eq_refl eq_refl G1 HD0 T1) as (S1 & S2 & S3 & _).
+    change (rt false 0) with false in S1, S2. change (tmpc st0) with 0 in S1, S2.
     cbn [st0 globals app] in S2.
     unfold pprog_exec in HP.
     destruct (pexec fuel [] (p_pre p)) as [[[rho e0] o0]|] eqn:E0; [|discriminate].
-    destruct o0; [|discriminate].
-    set (gs := snd (trm true false [] (p_pre p))) in *.
+    destruct o0; try discriminate.
+    set (gs := snd (trm false 0 true false [] (p_pre p))) in *.
     assert (HND : NoDup (map g_name gs)) by (apply trt_nodup).
     assert (Han0 : incl (anns_in (p_pre p)) (prog_anns p)).
     { unfold prog_anns. apply incl_appl. apply incl_refl. }
     assert (Hau0 : incl (augs_in (p_pre p)) (prog_augs p)).
     { unfold prog_augs. apply incl_appl, incl_refl. }
-    destruct (sim_all sem augsem info p Hfacts Hinfo fuel (p_pre p) true false _ [] [] D [] (rev (map bind gs)) rho e0 ONormal
-                eq_refl G1 Han0 Hau0 (Rel_nil _) (pend_init gs HND) E0)
+    destruct (sim_all sem augsem info p Hfacts Hinfo fuel (p_pre p) false 0 true false _ [] [] D [] (rev (map bind gs)) rho e0 ONormal
+                eq_refl G1 Han0 Hau0 NT_nil (Rel_nil _) (pend_init gs HND) E0)
       as (loc0 & sg1 & F1 & C1 & Fr1 & _ & Hl0 & N1).
-    rewrite (Hl0 eq_refl) in *. cbn [app] in *.
+    pose proof (g_block_NT _ _ _ _ _ _ G1 NT_nil) as HNTD.
     destruct (N1 eq_refl) as [R1 CO]. fold gs in CO.
+    apply (Rel_untmps _ _ _ _ _ HNTD (Hl0 eq_refl)) in R1.
     pose proof (init_ok gs CO []) as HI. rewrite app_nil_r in HI.
     rewrite <- S1 in C1.
     destruct (p_main p) as [body|] eqn:Em.
     - apply andb_true_iff in HGd as [HNT HGd].
       destruct (g_block (bsize body) true D [] body) as [D2|] eqn:G2; [|discriminate].
       destruct (tr_block true (bsize body) false 1 s1 body) as [[loop s2]|] eqn:T2; [|discriminate].
-      destruct (tr_block_simple true _ _ false true true _ _ _ _ _ _ _ _ eq_refl HNT G2 S3 T2) as (U1 & U2 & U3).
+      destruct (tr_block_simple true _ _ false true true 1%nat _ _ _ _ _ _ _ eq_refl eq_refl HNT G2 S3 T2) as (U1 & U2 & U3 & _).
+      change (rt true 1) with true in U1, U2.
       cbn [trm fst snd] in U1, U2. rewrite app_nil_r in U2.
       inversion HT; subst c. clear HT.
       destruct (ppasses sem augsem fuel n rho body) as [e1|] eqn:E1; [|discriminate]. inversion HP; subst tr.
@@ -126,9 +137,9 @@ Section Top.
       { unfold prog_anns. rewrite Em. apply incl_appr, incl_refl. }
       assert (Hau1 : incl (augs_in body) (prog_augs p)).
       { unfold prog_augs. rewrite Em. apply incl_appr, incl_refl. }
-      destruct (passes_sim fuel body D _ D2 HNT G2 Han1 Hau1 n rho sg1 e1 R1 E1) as (F2 & C2).
+      destruct (passes_sim fuel body D _ D2 (tmpc s1) HNTD HNT G2 Han1 Hau1 n rho sg1 e1 R1 E1) as (F2 & C2).
       exists (Nat.max F1 F2). intros F' HF'. unfold cprog_exec. cbn [c_globals c_setup c_loop].
-      rewrite U2, S2. fold gs. rewrite HI. rewrite C1 by lia. rewrite (lastn_Fr _ _ _ Fr1).
+      rewrite U2, S2. fold gs. rewrite HI. rewrite C1 by lia. cbn [oc]. rewrite (lastn_app_r (length (rev (map bind gs))) loc0 sg1) by (eapply Fr_length; eauto).
       rewrite U1. rewrite C2 by lia. reflexivity.
     - inversion HT; subst c. clear HT. inversion HP; subst tr.
       exists F1. intros F' HF'. unfold cprog_exec. cbn [c_globals c_setup c_loop].
